@@ -264,6 +264,7 @@ package trie
 //@   requires wf_core(st) && qr != nil && keyBitIdx >= 0 && int(qr.keyBitLen) == 8*len(qr.key)
 //@   requires 0 <= qr.from && qr.from < qr.to && int(qr.to) <= 64*len(INW(st))
 //@   requires (qr.wordSize == 8 && qr.to - qr.from == 257) || (qr.wordSize == 4 && (qr.to - qr.from == 17 || (int(qr.to - qr.from) == nS(st) && nS(st) >= 1)))
+//@   after getLabelIdxOfKey#1 use bit_shift(qr.bm, int(result))
 //@   ensures int(qr.to - qr.from) != nS(st) ==> int(result0) == rank1(INW(st), int(qr.from) + labelidx(qr.key, int(qr.keyBitLen), int(qr.wordSize), int(keyBitIdx)))
 //@   ensures int(qr.to - qr.from) != nS(st) ==> int(result1) == bitat(INW(st), int(qr.from) + labelidx(qr.key, int(qr.keyBitLen), int(qr.wordSize), int(keyBitIdx)))
 //@   ensures int(qr.to - qr.from) == nS(st) ==> int(result0) == rank1(INW(st), qr.from) + popcnt64(qr.bm & mask(labelidx(qr.key, int(qr.keyBitLen), int(qr.wordSize), int(keyBitIdx))))
